@@ -8,34 +8,63 @@ from ..wire import Sym, enc, request as rq, lean_representable
 
 ID = "C14"
 LEAN_MODULE = "BibVerif.Props.C14"
-TECHNIQUE = ("Lean 4 proof about the models of parse/merge/split/join and of the four name middlewares; differential "
-             "correspondence model vs names.py, also through parse_string(append_middleware)/write_string(prepend_middleware)")
-RULE = ("corpus (D8/K3 witnesses, the repo's co-author test inputs); function pair: every string of <= k tokens over the C13 "
-        "alphabet + ' and ' (k=4 quick, 5 thorough: exhaustive for that alphabet) and random lists of 1..5 persons "
-        "(structured names with von parts, special characters, escapes, `and` words, non-ASCII) -> split, parse, "
-        "merge_last_name_first, ' and '.join, split, parse; full stack: the same lists as the author/editor field of a "
-        "document through parse_string(append_middleware=[SeparateCoAuthors(), SplitNameParts()]), "
-        "write_string(prepend_middleware=[MergeNameParts(), MergeCoAuthors()]) and re-parsing. Compared: every "
-        "intermediate result (pieces, parts, merged string, re-split pieces, re-parsed parts; for the stack the complete "
-        "blocks). Non-trivial = at least one valid person.")
-LEVEL_TEXT = ("Lean theorems about the models, for EVERY name / list / entry and every Unicode classification: merge_parse "
-              "(parse (merge_last_name_first p) = p for the parts p that parse returns with non-empty last and no word "
-              "ending in an odd number of backslashes), merged_ok, join_split (names that are non-empty, trimmed, "
+TECHNIQUE = ("Lean 4 proof about the models of parse/merge/split/join, of the four name middlewares and - with C05's "
+             "print_parse - of parse_string(append_middleware)/write_string(prepend_middleware) over the model of the whole "
+             "default pipeline; differential correspondence model vs names.py and vs the two entry points")
+RULE = ("corpus (D8/K3/K5 witnesses, the repo's co-author test inputs, the Lean non-vacuity document); function pair: every "
+        "string of <= k tokens over the C13 alphabet + ' and ' (k=4 quick, 5 thorough: exhaustive for that alphabet) and random "
+        "lists of 1..5 persons (structured names with von parts, special characters, escapes, `and` words, non-ASCII) -> split, "
+        "parse, merge_last_name_first, ' and '.join, split, parse; full stack (kind stack): the same lists as the author/editor "
+        "field of a document through parse_string(append_middleware=[SeparateCoAuthors(), SplitNameParts()]), "
+        "write_string(prepend_middleware=[MergeNameParts(), MergeCoAuthors()]) and re-parsing, compared block by block with "
+        "the four middleware models; whole pipeline (kind pipe): every string of <= 3 tokens as a one-entry document and "
+        "random documents of 1..3 entries with 1..3 name fields each (braced, quoted and @string-referenced values) between "
+        "@string/@comment/@preamble/free-text blocks, occasionally with a duplicate key, x 3 BibtexFormat settings - the MODEL "
+        "of the pipeline (parseDefault + applyMws, applyMws + writeDefault, re-parse) vs the real entry points: the complete "
+        "library after parsing, after merging, the written text, the complete re-parsed library. Non-trivial = at least one "
+        "valid person.")
+LEVEL_TEXT = ("Lean theorems about the models, for EVERY name / list / entry / library and every Unicode classification: "
+              "merge_parse (parse (merge_last_name_first p) = p for the parts p that parse returns with non-empty last and no "
+              "word ending in an odd number of backslashes), merged_ok, join_split (names that are non-empty, trimmed, "
               "brace-balanced, not ending in an unescaped backslash and free of a bare `and` word survive ' and '.join + "
-              "split; the backslash condition is shown necessary), list_roundtrip, value_roundtrip and stack_roundtrip "
+              "split; the backslash condition is shown necessary), list_roundtrip, value_roundtrip, stack_roundtrip "
               "(SeparateCoAuthors+SplitNameParts, then MergeNameParts+MergeCoAuthors, then separate+split again gives the "
-              "same entry), and the refutation and_word_cx (K3). The model is tied to names.py and to the parse/write "
-              "entry points by differential execution on every run.")
-LEVEL_NOTE = ("Trusted: Lean kernel + 3 standard axioms; the hand-written models Names/*.lean; the correspondence run. The "
-              "writer/splitter part of the stack clause is exercised on the real code (oracle + comparison of the re-parsed "
-              "fields with the model), not modelled here (C05/C10).")
+              "same entry), lib_roundtrip (the same for every block of a library), and the refutation and_word_cx (K3). "
+              "Second sentence, through the model of the whole pipeline: mws_blockwise (running the middlewares one after "
+              "the other over the library with Library(blocks) in between, as the entry points do, equals the block-by-block "
+              "application on every library - keys never change), content_only (what the name middlewares do depends only on "
+              "a block's content), pipeline_roundtrip and entrypoint_roundtrip: if parse_string(s, append_middleware=[Separate, "
+              "Split]) returns L1 with good persons and the library the two merge middlewares make of L1 is Writable (C05), then "
+              "write_string(L1, prepend_middleware=[MergeNameParts, MergeCoAuthors], F) returns a text t and parse_string(t, "
+              "append_middleware=[...]) returns a library with the same blocks, types, keys, field order and values - the same "
+              "structured names; for every FormatOK format and every character table satisfying PrintOK. "
+              "pipeline_roundtrip_full_cx (K5) and merged_blockstart_cx (K6): without Writable the clause is false of model "
+              "and code alike. The models are "
+              "tied to names.py and to the two entry points by differential execution on every run.")
+LEVEL_NOTE = ("Trusted: Lean kernel + 3 standard axioms; the hand-written models Names/*.lean (incl. Names/Pipeline.lean: "
+              "parseNames, writeNames) and the models of the default pipeline (Lex, Split, Interpolate, Enclosing, Writer, "
+              "Pipeline - shared with C05); the correspondence run; the PrintOK facts about CPython's \\w / isspace / lower "
+              "(checked over all code points on every run). The stack clause is proved under the hypothesis Writable of the "
+              "MERGED library (C05's condition: no failed block - so every name valid -, distinct keys, \\w entry types, simple "
+              "keys, every value CleanVal, ...); it is a hypothesis on the merged library, not derived from the source document. "
+              "K5 (merged value ending in a backslash) is exactly a case where Writable fails: `B, A\\\\` is not CleanVal; so is "
+              "K6 (author = {a@b~{c} D} merges to `a@b {c} D`, which contains the block start `@b {`; merged_blockstart_cx). The "
+              "model's middlewares use the default name_fields and the last-name-first style; other configurations are "
+              "exercised on the real code only (kind cfg).")
 EXHAUSTIVE = {"quick": True, "thorough": True}
-ASSUMPTIONS = ["stack clause: the document written by write_string re-parses to the merged field value verbatim "
-               "(C05/C10; fails when the merged value ends in a backslash - known finding K5)"]
-PARTIAL = ["parse_string(append_middleware)/write_string(prepend_middleware) clause: proved for the four middlewares on an "
-           "entry (stack_roundtrip); the splitter, the default stacks and the writer in between are not modelled in this "
-           "module (C05/C06/C10) - that part is observed on the real code (oracle, and the re-parsed fields are compared with "
-           "the model) and fails when the merged value ends in a backslash (known finding K5)"]
+ASSUMPTIONS = ["PrintOK (per-character facts about \\w, str.isspace, str.lower; checked over all code points this run)",
+               "FormatOK: indent consists of blanks/tabs, block_separator of blanks/tabs/newlines",
+               "stack clause: Writable of the library MergeNameParts+MergeCoAuthors produce (C05; in particular every merged "
+               "name value is CleanVal: brace-balanced tokens, no block start inside, not ending in a backslash - the known "
+               "findings K5 (merged value ends in a backslash) and K6 (merging replaces a `~` between `@word` and `{` by a "
+               "blank: the merged value contains a block start) are cases where Writable fails and so does the clause)",
+               "persons: non-empty last name, no word ending in an odd number of backslashes, no bare word `and` in the "
+               "merged form (K3)"]
+PARTIAL = ["pipeline_roundtrip_full (Props/C14.lean, kept as a def; refuted as stated by pipeline_roundtrip_full_cx = K5 and merged_blockstart_cx = K6): the "
+           "stack clause with no condition on the merged library. Proved is entrypoint_roundtrip / pipeline_roundtrip, which "
+           "assume Writable of the merged library; not proved is a characterisation of that hypothesis from the source "
+           "document (when is every merged name value CleanVal? TextOK of the source value is not enough: K6) - that gap is "
+           "covered by the correspondence run and the oracle (kinds stack, pipe) only"]
 
 ALPHABET = ["Aa", "bb", "1", " ", ",", "~", "{", "}", "\\x", "\\X", "\\", "\\'", "b c", "\t", " and "]
 GROUPS = [["separate", "splitParts"], ["mergePartsLast", "mergeCo"], ["separate", "splitParts"]]
@@ -60,6 +89,16 @@ def corpus():
     cases = [{"kind": "pair", "t": t} for t in texts + fields]
     cases += [{"kind": "stack", "t": t, "field": "author"} for t in texts + fields[:20]]
     cases += [{"kind": "cfg", "cfg": i, "t": t} for i in range(len(CFGS)) for t in ["Aa Bb and cc Dd, Ee", "van der Waals", "A B"]]
+    # the model of the whole pipeline vs the entry points
+    cases += [_pipe_single(t, "author", i % len(FMTS)) for i, t in enumerate(texts + fields[:20])]
+    ex = "@a{k, author = {Aa Bb and de {La Rue}, Ee}, t = {T and U}}\n@comment{c}"      # Props/C14.lean exDoc
+    cases += [{"kind": "pipe", "doc": ex, "names": ["Aa Bb and de {La Rue}, Ee"], "fmt": i} for i in range(len(FMTS))]
+    cases.append({"kind": "pipe", "doc": "@a{k, author = {A\\\\\\\\ B}}", "names": ["A\\\\\\\\ B"], "fmt": 0})   # Props/C14.lean k5Doc
+    cases.append({"kind": "pipe", "doc": "@a{k, author = {a@b~{c} D}}", "names": ["a@b~{c} D"], "fmt": 0})         # Props/C14.lean k6Doc
+    multi = ("@string{nm = {von Last, Jr, First}}\n@article{k1,\n  author = nm,\n  title = {T and U},\n  editor = \"Aa Bb and {Cc and Dd}\"\n}\n"
+             "free text\n@book{k2, translator = {de la Fontaine, Jean and Knuth, D. E.}}\n@comment{a comment}\n@preamble{pre}\n"
+             "@misc{k1, author = {Dup Key}}\n@misc{k3, author = {Aa,}, editor = {Bb Cc}}")
+    cases += [{"kind": "pipe", "doc": multi, "names": [], "fmt": i} for i in range(len(FMTS))]
     cases.append({"kind": "mw", "fields": [["author", {"parts": [[["Aa"], ["von"], ["Bb"], ["Jr"]], [[], [], ["L\\"], []]]}],
                                           ["editor", {"parts": []}], ["title", {"s": "t"}]],
                   "groups": [["mergePartsLast"], ["mergeCo"], ["separate", "splitParts"]], "inplace": False})
@@ -107,10 +146,68 @@ def gen(tier, rng):
         yield {"kind": "stack", "t": _persons(rng), "field": rng.choice(["author", "editor", "translator", "author"])}
         if rng.random() < 0.05:
             yield {"kind": "cfg", "cfg": rng.randrange(len(CFGS)), "t": _persons(rng)}
+    for i, t in enumerate(C.token_strings(ALPHABET, 3)):
+        yield _pipe_single(t, "author", i % len(FMTS))
+    for _ in range(5000 if tier == "quick" else 60000):
+        doc, names = _pipe_doc(rng)
+        yield {"kind": "pipe", "doc": doc, "names": names, "fmt": rng.randrange(len(FMTS))}
 
 
 def _doc(case):
     return "@article{k,\n\t%s = {%s},\n\ttitle = {T and U}\n}\n" % (case.get("field", "author"), case["t"])
+
+
+# BibtexFormat settings of the pipe cases (all FormatOK: indent of blanks/tabs, separator of blanks/tabs/newlines)
+FMTS = [{"indent": "\t", "col": 0, "sep": "\n\n", "tc": False},
+        {"indent": "  ", "col": "auto", "sep": "\n", "tc": True},
+        {"indent": "", "col": 14, "sep": " \n\n", "tc": False}]
+_TEMPLATE = "% WARNING Parsing failed for the following {n} lines."
+NAME_FIELDS = ("author", "editor", "translator")
+
+
+def _fmt_wire(i):
+    f = FMTS[i]
+    return [Sym("fmt"), f["indent"], Sym("auto") if f["col"] == "auto" else f["col"], f["sep"], f["tc"], _TEMPLATE]
+
+
+def _fmt_of(i):
+    from bibtexparser.writer import BibtexFormat
+    f = BibtexFormat()
+    f.indent, f.value_column, f.block_separator, f.trailing_comma = (FMTS[i][k] for k in ("indent", "col", "sep", "tc"))
+    return f
+
+
+def _pipe_single(t, field, fmt):
+    return {"kind": "pipe", "doc": _doc({"t": t, "field": field}), "names": [t], "fmt": fmt}
+
+
+def _pipe_doc(rng):
+    """a document of 1..3 entries with 1..3 name fields each (braced, quoted or a reference to a @string) between
+    other block kinds; `names` = the texts of the name fields in document order"""
+    names, parts, strings = [], [], {}
+    if rng.random() < 0.4:
+        strings["nm"] = _person(rng) if rng.random() < 0.5 else _persons(rng)
+        parts.append("@string{nm = {%s}}" % strings["nm"])
+    for i in range(rng.randint(1, 3)):
+        if rng.random() < 0.35:
+            parts.append(rng.choice(["@comment{a comment}", "free text", "@preamble{pre}", "@string{s%d = {x y}}" % i]))
+        key = "k%d" % (i if rng.random() < 0.95 else 0)
+        fields = []
+        for f in rng.sample(NAME_FIELDS, rng.randint(1, 3)):
+            r = rng.random()
+            if strings and r < 0.15:
+                fields.append("%s = nm" % f)
+                names.append(strings["nm"])
+            else:
+                t = _persons(rng)
+                fields.append(('%s = "%s"' if r < 0.3 else "%s = {%s}") % (f, t))
+                names.append(t)
+        if rng.random() < 0.7:
+            fields.insert(rng.randrange(len(fields) + 1), "title = {T and U}")
+        parts.append("@%s{%s,\n  %s\n}" % (rng.choice(["article", "book", "Misc"]), key, ",\n  ".join(fields)))
+    if rng.random() < 0.2:
+        parts.append(rng.choice(["@comment{end}", "trailing text"]))
+    return rng.choice(["\n", "\n\n", " "]).join(parts), names
 
 
 def _plain_entry(case):
@@ -127,6 +224,11 @@ def request(case):
     kind = case["kind"]
     if kind == "cfg":
         return None
+    if kind == "pipe":
+        doc = case["doc"]
+        if not lean_representable(doc):
+            return None
+        return rq("namespipe", _fmt_wire(case.get("fmt", 0)), doc, chars_of=doc)
     if kind == "mw":
         text = "".join(U.value_text(v) for _k, v in case["fields"])
         if not lean_representable(text):
@@ -210,6 +312,103 @@ def _stack(case):
     return enc(out)
 
 
+def _raise(e):
+    return [Sym("raise"), Sym(type(e).__name__)]
+
+
+def _pipe(case):
+    """the four stages of `namespipe` on the real code: the library parse_string(append=[Separate, Split]) returns; the
+    library the two merge middlewares make of it; the text write_string(prepend=[MergeNameParts, MergeCoAuthors],
+    bibtex_format) returns for the parsed library; the library parse_string(append=...) returns for that text.
+    Complete blocks (all attributes, metadata); cut short by (raise E) at the first stage that raises."""
+    import bibtexparser
+    from bibtexparser.middlewares.names import SeparateCoAuthors, SplitNameParts, MergeNameParts, MergeCoAuthors
+    doc, fmt = case["doc"], _fmt_of(case.get("fmt", 0))
+    out = []
+    try:
+        lib1 = bibtexparser.parse_string(doc, append_middleware=[SeparateCoAuthors(), SplitNameParts()])
+    except Exception as e:  # noqa
+        return enc(out + [_raise(e)])
+    out.append([Sym("ok"), B.enc_blocks(lib1.blocks, prev=False)])      # rendered before anything else touches the objects
+    try:
+        lib2 = MergeCoAuthors(allow_inplace_modification=False).transform(
+            MergeNameParts(allow_inplace_modification=False).transform(lib1))
+    except Exception as e:  # noqa
+        return enc(out + [_raise(e)])
+    out.append([Sym("ok"), B.enc_blocks(lib2.blocks, prev=False)])
+    try:
+        text = bibtexparser.write_string(lib1, prepend_middleware=[MergeNameParts(), MergeCoAuthors()], bibtex_format=fmt)
+    except Exception as e:  # noqa
+        return enc(out + [_raise(e)])
+    out.append([Sym("ok"), text])
+    try:
+        lib3 = bibtexparser.parse_string(text, append_middleware=[SeparateCoAuthors(), SplitNameParts()])
+    except Exception as e:  # noqa
+        return enc(out + [_raise(e)])
+    out.append([Sym("ok"), B.enc_blocks(lib3.blocks, prev=False)])
+    return enc(out)
+
+
+def _content(blocks):
+    """what `contentOf` keeps of a library without failed blocks"""
+    from bibtexparser import model as M
+    out = []
+    for b in blocks:
+        if isinstance(b, M.Entry):
+            out.append(("entry", b.entry_type, b.key, [(f.key, f.value) for f in b.fields]))
+        elif isinstance(b, M.String):
+            out.append(("string", b.key, b.value))
+        elif isinstance(b, M.Preamble):
+            out.append(("preamble", b.value))
+        elif isinstance(b, M.ExplicitComment):
+            out.append(("expl", b.comment))
+        else:
+            out.append(("impl", b.comment))
+    return out
+
+
+def _pipe_oracle(case):
+    """The second sentence on the real code, for a whole document: if the document parses (split middlewares appended)
+    into a library without failed blocks whose name fields hold exactly the persons of `names` - every person with a
+    non-empty last name and no word ending in an odd number of backslashes - then the document write_string (merge
+    middlewares prepended) returns re-parses to a library with the same content: same blocks, types, keys, field
+    order, and the same structured names."""
+    import copy
+    import bibtexparser
+    from bibtexparser import model as M
+    from bibtexparser.middlewares.names import (SeparateCoAuthors, SplitNameParts, MergeNameParts, MergeCoAuthors,
+                                                split_multiple_persons_names as split,
+                                                parse_single_name_into_parts as parse, InvalidNameError)
+    names = case["names"]
+    if not names:
+        return None
+    try:
+        want = [[parse(x) for x in split(t)] for t in names]
+    except InvalidNameError:
+        return None
+    if not all(_ok_parts(p) for ps in want for p in ps) or not any(want):
+        return None
+    lib1 = bibtexparser.parse_string(case["doc"], append_middleware=[SeparateCoAuthors(), SplitNameParts()])
+    if any(isinstance(b, M.ParsingFailedBlock) for b in lib1.blocks):
+        return None
+    got = [f.value for b in lib1.blocks if isinstance(b, M.Entry) for f in b.fields if f.key in NAME_FIELDS]
+    if got != want:
+        return None     # the name fields the parser extracted are not the texts we reasoned about
+    c1 = copy.deepcopy(_content(lib1.blocks))
+    text = bibtexparser.write_string(lib1, prepend_middleware=[MergeNameParts(), MergeCoAuthors()],
+                                     bibtex_format=_fmt_of(case.get("fmt", 0)))
+    lib3 = bibtexparser.parse_string(text, append_middleware=[SeparateCoAuthors(), SplitNameParts()])
+    if any(isinstance(b, M.ParsingFailedBlock) for b in lib3.blocks):
+        return "the written document %r re-parses with failed blocks: %r" % (text, [type(b).__name__ for b in lib3.blocks])
+    c3 = _content(lib3.blocks)
+    if c3 != c1:
+        for i, (a, b) in enumerate(zip(c1, c3)):
+            if a != b:
+                return "block %d: %r, written as %r, re-parses to %r" % (i, a, text, b)
+        return "block count changed: %d -> %d (written %r)" % (len(c1), len(c3), text)
+    return None
+
+
 CFGS = [
     # (name_fields per middleware group, fields of the document)
     {"groups": [("author", "bookauthor")], "fields": ["author", "bookauthor", "editor"]},
@@ -287,6 +486,8 @@ def impl(case):
         return enc(U.run_groups(U.make_entry(case["fields"]), case["groups"], case.get("inplace", True)))
     if kind == "pair":
         return enc(_pair(case["t"]))
+    if kind == "pipe":
+        return _pipe(case)
     return _stack(case)
 
 
@@ -307,6 +508,8 @@ def oracle(case):
         return None
     if kind == "cfg":
         return _cfg_check(case)
+    if kind == "pipe":
+        return _pipe_oracle(case)
     t = case["t"]
     names = split(t)
     try:
@@ -372,16 +575,39 @@ def _merged_ends_in_backslash(t):
     return bool(ps) and " and ".join(p.merge_last_name_first for p in ps).endswith("\\")
 
 
-def known_match(finding, case, failure):
-    if case.get("kind") not in ("pair", "stack"):
+def _merged_has_block_start(t):
+    import re
+    from bibtexparser.middlewares.names import (split_multiple_persons_names as split,
+                                                parse_single_name_into_parts as parse, InvalidNameError)
+    try:
+        ps = [parse(x) for x in split(t)]
+    except InvalidNameError:
         return False
+    return re.search(r"@\w*[ \t]*\{", " and ".join(p.merge_last_name_first for p in ps)) is not None
+
+
+def known_match(finding, case, failure):
+    kind = case.get("kind")
+    if kind not in ("pair", "stack", "pipe"):
+        return False
+    texts = case["names"] if kind == "pipe" else [case["t"]]
     if finding.get("id") == "K3":
         # only failures whose input has a piece containing a bare top-level word and/AND/And...
-        return _has_and_word(case["t"])
+        return any(_has_and_word(t) for t in texts)
     if finding.get("id") == "K5":
-        # only the stack clause, and only when the merged field value ends in a backslash
-        return case.get("kind") == "stack" and _merged_ends_in_backslash(case["t"])
+        # only the stack clause, and only when a merged field value ends in a backslash (Writable fails: not CleanVal)
+        return kind in ("stack", "pipe") and any(_merged_ends_in_backslash(t) for t in texts)
+    if finding.get("id") == "K6":
+        # only the stack clause, and only when a merged field value contains a block start (Writable fails: not CleanVal)
+        return kind in ("stack", "pipe") and any(_merged_has_block_start(t) for t in texts)
     return False
+
+
+def extra_obligations(tier):
+    """pipeline_roundtrip / entrypoint_roundtrip assume PrintOK (Lemmas/PrintParseDefs.lean): the same per-character
+    facts as C05, evaluated on the running CPython over all code points"""
+    from . import c05 as _c05
+    return _c05.extra_obligations(tier)
 
 
 def nontrivial(case, out):
@@ -396,6 +622,17 @@ def describe(cases, outs):
         k = c["kind"]
         kinds[k] += 1
         if k == "mw":
+            continue
+        if k == "pipe":
+            if "(raise" in o:
+                feats["pipe: a stage raised"] += 1
+            elif "(mwerror" in o:
+                feats["pipe: invalid name -> error block"] += 1
+            elif "(failed" in o or "(dupkey" in o:
+                feats["pipe: failed / duplicate-key block in a library"] += 1
+            else:
+                feats["pipe: all four stages, live blocks only"] += 1
+            feats["pipe: format %d" % c.get("fmt", 0)] += 1
             continue
         if k == "pair":
             if o.endswith(" invalid)") and o.count("(np") == 0:
